@@ -933,6 +933,7 @@ func runC19(c *run.Ctx, s *kit.Summary) {
 	// the real attack command against raw TCP listeners: what reaches the wire
 	runE2E(c, s, r)
 	runE2EMulti(c, s, r)
+	runDNSLib(c, s, r)
 }
 
 // acceptedResolversAreAddresses: whatever list the flag accepts, every address it will dial must be an
@@ -1005,6 +1006,10 @@ func rateCaseOfText(t string) gen.RateCase {
 // replay: {"input": {"op":…, "args_hex":[…], "args_text":[…]}} — re-run that one case with the stream's oracle.
 func replay(c *run.Ctx, s *kit.Summary) {
 	guardConfirm = newGuardConfirm(c, s)
+	if raw, err := os.ReadFile(c.Replay); err == nil && (bytes.Contains(raw, []byte(`"op": "dns-lib"`)) || bytes.Contains(raw, []byte(`"op":"dns-lib"`))) {
+		replayDNSLib(c, s, raw)
+		return
+	}
 	if raw, err := os.ReadFile(c.Replay); err == nil && (bytes.Contains(raw, []byte(`"op": "e2e-multi"`)) || bytes.Contains(raw, []byte(`"op":"e2e-multi"`))) {
 		replayE2EMulti(c, s, raw)
 		return
